@@ -8,7 +8,7 @@ VERIF = os.path.dirname(os.path.dirname(os.path.abspath(__file__)))
 SEEDED = os.path.join(VERIF, 'seeded')
 
 def main():
-    names = sys.argv[1:] or sorted(d for d in os.listdir(SEEDED) if os.path.isdir(os.path.join(SEEDED, d)) and d != 'void')
+    names = sys.argv[1:] or sorted(d for d in os.listdir(SEEDED) if os.path.isdir(os.path.join(SEEDED, d)) and d not in ('void', 'unreachable'))
     resf = os.path.join(SEEDED, 'RESULTS.json')
     results = {}
 
